@@ -51,6 +51,13 @@ Inductive case :=
              (prepared : option (bytes * list qvalue * bool)) (stream : Z) (out : bytes)
 | CConnBatch (version : Z) (comp tracing : bool) (typ : Z) (entries : list (bytes * option (bytes * list qvalue)))
              (cl serial : Z) (dts : bool) (dtsv : Z) (payload : payload_t) (stream : Z) (out : option bytes)
+(* the same with the bound values as given to the API (NamedValue / UnsetValue / nil / []byte): marshalQueryValue is
+   part of what the model computes *)
+| CConnBind (version : Z) (comp tracing : bool) (ks : bytes) (q : query_in) (stmt id : bytes)
+            (vals : list (option bytes * api_bound)) (disable_skip : bool) (stream : Z) (out : bytes)
+| CConnBatchBind (version : Z) (comp tracing : bool) (typ : Z)
+                 (entries : list (bytes * option (bytes * list (option bytes * api_bound))))
+                 (cl serial : Z) (dts : bool) (dtsv : Z) (payload : payload_t) (stream : Z) (out : option bytes)
 | CConnUse (version : Z) (comp : bool) (session_cons : Z) (ks : bytes) (stream : Z) (out : bytes)
 | CConnPrepare (version : Z) (comp tracing : bool) (ks stmt : bytes) (stream : Z) (out : bytes)
 (* a frame of live traffic of a session that negotiated a real compression codec: [body] is what the
@@ -138,6 +145,20 @@ Definition check (c : case) : bool :=
       end
   | CLiveZ v tracing stream r body zbody out =>
       builds_with (Some (observed_comp body zbody)) (observed_decomp body zbody) v tracing stream r out
+  | CConnBind v comp tracing ks q stmt id vals dis stream out =>
+      builds v comp tracing stream (conn_execute_query v ks q stmt (Some (id, map marshal_query_value vals, dis))) out
+  | CConnBatchBind v comp tracing typ entries cl serial dts dtsv payload stream out =>
+      let entries' := map (fun e => (fst e, match snd e with
+                                            | Some (id, vals) => Some (id, map marshal_query_value vals)
+                                            | None => None
+                                            end)) entries in
+      match conn_execute_batch v typ entries' cl serial dts dtsv payload, out with
+      | Some r, Some b => builds v comp tracing stream r b
+      | None, None => true
+      | Some r, None =>   (* nothing written: the builder must have refused (named values in a batch) *)
+          match build_frame (if comp then Some test_comp else None) v tracing 0 stream r with Ok _ => false | _ => true end
+      | None, Some _ => false
+      end
   | CConnUse v comp scons ks stream out => builds v comp false stream (conn_use_keyspace scons ks) out
   | CConnPrepare v comp tracing ks stmt stream out => builds v comp tracing stream (conn_prepare v ks stmt) out
   | CSessionBatchGuard n refused => Bool.eqb (session_batch_refused n) refused
